@@ -4,28 +4,22 @@ package c01
 
 import (
 	"bytes"
-	"context"
 	"fmt"
 	"testing"
-	"time"
 
 	"pgregory.net/rapid"
 
+	"verif/harness/pw"
 	"verif/harness/world"
 )
 
-type Step struct {
-	Seq      world.SeqResp `json:"seq"`
-	ExecFail bool          `json:"exec_fail,omitempty"`
-}
+type Step = pw.Step
 
 type Scenario struct {
 	InitialHeight uint64 `json:"initial_height"`
 	Lazy          bool   `json:"lazy,omitempty"`
 	Steps         []Step `json:"steps"`
 }
-
-var genesisTime = time.Unix(1_700_000_000, 0).UTC()
 
 func genTx(t *rapid.T) []byte {
 	switch rapid.IntRange(0, 9).Draw(t, "txshape") {
@@ -102,162 +96,25 @@ func genScenario(t *rapid.T) Scenario {
 	return sc
 }
 
-// Producer is the producer world shared by the run and the epilogue.
-type Producer struct {
-	ctx   context.Context
-	n     *world.Node
-	exec  *world.ExecDbl
-	seq   *world.SeqDbl
-	txsOf map[uint64][][]byte
-}
-
-func (p *Producer) lastTime() time.Time {
-	h, _ := p.n.Store.Height(p.ctx)
-	if h >= p.n.Genesis.InitialHeight {
-		if hdr, err := p.n.Store.GetHeader(p.ctx, h); err == nil {
-			return hdr.Time()
-		}
-	}
-	return p.n.Genesis.GenesisDAStartTime
-}
-
-func newProducer(sc Scenario, dir string) (*Producer, error) {
-	ctx := context.Background()
-	sgn, _, pub := world.SignerFromSeed("proposer")
-	p := &Producer{ctx: ctx, exec: world.NewExecDbl("c01"), txsOf: map[uint64][][]byte{}}
-	p.seq = world.NewSeqDbl(func() time.Time { return p.lastTime() })
-	o := world.NodeOpts{ChainID: "c01-chain", InitialHeight: sc.InitialHeight, GenesisTime: genesisTime, Aggregator: true,
-		Lazy: sc.Lazy, BlockTime: time.Second, DABlockTime: 2 * time.Second, LazyInterval: 10 * time.Second, RootDir: dir}
-	n, err := world.NewNode(ctx, o, world.NewCrashDS(), sgn, pub, p.exec, p.seq, world.NewDADbl(0))
-	if err != nil {
-		return nil, err
-	}
-	p.n = n
-	p.txsOf[sc.InitialHeight] = [][]byte{} // the pre-saved genesis block is built from no batch
-	return p, nil
-}
-
-// step runs one production step and returns (height before, height after, error, panic value).
-func (p *Producer) step(st Step) (before, after uint64, err error, pan any) {
-	before, _ = p.n.Store.Height(p.ctx)
-	_, _, perr := p.n.Store.GetBlockData(p.ctx, before+1)
-	pendingExists := perr == nil
-	ncalls := len(p.seq.Calls())
-	p.seq.Push(st.Seq)
-	if st.ExecFail {
-		p.exec.FailNextExec(1)
-	} else {
-		p.exec.FailNextExec(0)
-	}
-	func() {
-		defer func() {
-			if r := recover(); r != nil {
-				pan = r
-			}
-		}()
-		err = p.n.M.VerifPublishBlock(p.ctx)
-	}()
-	after, _ = p.n.Store.Height(p.ctx)
-	calls := p.seq.Calls()
-	if !pendingExists && len(calls) > ncalls {
-		r := calls[len(calls)-1].Resp
-		if r.Kind == "empty" || r.Kind == "txs" {
-			if _, _, e := p.n.Store.GetBlockData(p.ctx, before+1); e == nil {
-				if _, seen := p.txsOf[before+1]; !seen {
-					txs := r.Txs
-					if r.Kind == "empty" {
-						txs = [][]byte{}
-					}
-					p.txsOf[before+1] = txs
-				}
-			}
-		}
-	}
-	// drop an unconsumed scripted response (the step did not ask the sequencing layer)
-	if len(p.seq.Calls()) == ncalls {
-		p.seq.Drain()
-	}
-	return
-}
-
-func (p *Producer) oracle(when string) *world.Problem {
-	_, pr := world.CheckChain(p.ctx, p.n.Spec(p.exec.GenesisRoot(), func(h uint64) ([][]byte, bool) {
-		t, ok := p.txsOf[h]
-		return t, ok
-	}, true))
-	if pr != nil {
-		pr.Msg = when + ": " + pr.Msg
-		return pr
-	}
-	// broadcasters: exactly the committed header/data of each new height, once, in order
-	height, _ := p.n.Store.Height(p.ctx)
-	hp := p.n.HB.Payloads()
-	dp := p.n.DB.Payloads()
-	want := uint64(0)
-	if height >= p.n.Genesis.InitialHeight {
-		want = height - p.n.Genesis.InitialHeight + 1
-	}
-	if uint64(len(hp)) > want || uint64(len(dp)) > want {
-		return &world.Problem{Sig: "C01/broadcast-count", Msg: fmt.Sprintf("%s: %d headers / %d data broadcast for %d committed blocks", when, len(hp), len(dp), want)}
-	}
-	for i, h := range hp {
-		eh := p.n.Genesis.InitialHeight + uint64(i)
-		sh, err := p.n.Store.GetHeader(p.ctx, eh)
-		if err != nil || h.Height() != eh || !bytes.Equal(sh.Hash(), h.Hash()) {
-			return &world.Problem{Sig: "C01/broadcast-header", Msg: fmt.Sprintf("%s: %d-th broadcast header is height %d hash %x, committed block %d differs", when, i, h.Height(), h.Hash(), eh)}
-		}
-	}
-	for i, d := range dp {
-		eh := p.n.Genesis.InitialHeight + uint64(i)
-		_, sd, err := p.n.Store.GetBlockData(p.ctx, eh)
-		if err != nil || d.Metadata == nil || d.Height() != eh || !bytes.Equal(sd.Hash(), d.Hash()) {
-			return &world.Problem{Sig: "C01/broadcast-data", Msg: fmt.Sprintf("%s: %d-th broadcast data differs from committed data of block %d", when, i, eh)}
-		}
-	}
-	// execution calls: heights never go backwards, and the last successful call for each committed
-	// height carried the block's txs and the root before it
-	last := uint64(0)
-	byH := map[uint64]world.ExecCall{}
-	for _, c := range p.exec.CallsOf("exec") {
-		if c.Height < last {
-			return &world.Problem{Sig: "C01/exec-order", Msg: fmt.Sprintf("%s: ExecuteTxs called for height %d after height %d", when, c.Height, last)}
-		}
-		last = c.Height
-		if c.Err == "" {
-			byH[c.Height] = c
-		}
-	}
-	views, _ := world.CheckChain(p.ctx, p.n.Spec(p.exec.GenesisRoot(), nil, false))
-	for _, v := range views {
-		c, ok := byH[v.Height]
-		if !ok {
-			return &world.Problem{Sig: "C01/exec-missing", Msg: fmt.Sprintf("%s: block %d committed without a successful ExecuteTxs call", when, v.Height)}
-		}
-		if !world.EqTxs(c.Txs, v.Txs) || !bytes.Equal(c.Prev, v.AppHash) {
-			return &world.Problem{Sig: "C01/exec-args", Msg: fmt.Sprintf("%s: ExecuteTxs for block %d was called with different txs or previous root", when, v.Height)}
-		}
-	}
-	return nil
-}
-
 func run(sc Scenario, dir string) world.Verdict {
-	p, err := newProducer(sc, dir)
+	p, err := pw.New(world.NodeOpts{ChainID: "c01-chain", InitialHeight: sc.InitialHeight, Lazy: sc.Lazy, RootDir: dir})
 	if err != nil {
 		return world.Fail("C01/start", "NewManager failed on a fresh store: %v", err)
 	}
 	committed, empties, nonempties, bad := 0, 0, 0, 0
 	labels := map[string]bool{}
 	for i, st := range sc.Steps {
-		before, after, _, pan := p.step(st)
-		if pan != nil {
-			return world.Fail("C01/panic", "step %d panicked: %v", i, pan)
+		r := p.Step(st)
+		before, after := r.Before, r.After
+		if r.Panic != nil {
+			return world.Fail("C01/panic", "step %d panicked: %v", i, r.Panic)
 		}
 		if after < before || after > before+1 {
 			return world.Fail("C01/height-jump", "step %d moved the chain height from %d to %d", i, before, after)
 		}
 		if after == before+1 {
 			committed++
-			_, d, _ := p.n.Store.GetBlockData(p.ctx, after)
+			_, d, _ := p.N.Store.GetBlockData(p.Ctx, after)
 			if d != nil && len(d.Txs) == 0 {
 				empties++
 			} else {
@@ -274,22 +131,23 @@ func run(sc Scenario, dir string) world.Verdict {
 		if st.ExecFail {
 			labels["exec-fail"] = true
 		}
-		if pr := p.oracle(fmt.Sprintf("after step %d", i)); pr != nil {
+		if pr := p.Oracle(fmt.Sprintf("after step %d", i), true, true); pr != nil {
 			return world.Fail("C01/"+pr.Sig, "%s", pr.Msg)
 		}
 	}
 	// epilogue: responses are well-formed again; every step must commit exactly one block
 	for k := 0; k < 3; k++ {
 		st := Step{Seq: world.SeqResp{Kind: "txs", Txs: [][]byte{[]byte(fmt.Sprintf("epilogue-%d", k))}, DeltaNs: 1_000_000}}
-		before, after, err, pan := p.step(st)
-		if pan != nil {
-			return world.Fail("C01/panic", "epilogue step %d panicked: %v", k, pan)
+		r := p.Step(st)
+		before, after, err := r.Before, r.After, r.Err
+		if r.Panic != nil {
+			return world.Fail("C01/panic", "epilogue step %d panicked: %v", k, r.Panic)
 		}
 		if after != before+1 {
 			sig := "C01/stuck"
 			return world.Fail(sig, "producer cannot produce although responses are well-formed again: epilogue step %d left height at %d (err=%v)", k, after, err)
 		}
-		if pr := p.oracle(fmt.Sprintf("after epilogue step %d", k)); pr != nil {
+		if pr := p.Oracle(fmt.Sprintf("after epilogue step %d", k), true, true); pr != nil {
 			return world.Fail("C01/"+pr.Sig, "%s", pr.Msg)
 		}
 	}
